@@ -21,12 +21,12 @@ CLAIMS = {
     'C02': _c('Whole-package effect analysis from parse(): no write to module/class/instance state during evaluation (allow-list: '
               'emitter bookkeeping, traceback reset), no mutation of host-aliased values (taint through parameters, p[i], '
               'iteration, shallow copies), debug branches only print, shared exception singletons never keep frames, no '
-              'unbounded memo, a private token stream per parse, per-parser tables never start out as an object shared between parsers. Structural reason why outcome cannot depend on history; third-party retention not decided.',
+              'unbounded memo, a private token stream per parse, per-parser tables never start out as an object shared between parsers, no hand-made result cache (a decorator whose wrapper stores into a container born with the decorated function), class attributes written through cls / type(self) count as shared state. Structural reason why outcome cannot depend on history; third-party retention not decided.',
               'effect analysis + host-alias taint + typestate on exception singletons over the resolved call graph',
               'DESIGN.md 5 C02'),
     'C03': _c('Structural isolation rules: every yacc parse names a private cloned lexer, all instance state is born in __init__ '
               'from fresh containers, no class-level mutable state or mutable defaults, registry is write-once at import, no ply '
-              'module-global API, no lock of any kind held while host code runs. Necessary conditions for isolation/re-entrancy under every interleaving; races inside ply not decided.',
+              'module-global API, no lock of any kind held while host code runs, registering modules are imported when the package is, and a parser made by the copy hooks the class defines (__copy__, __deepcopy__, copy, clone) shares no listener list, variable table or function table with its original (scripted history on the abstract parser object). Necessary conditions for isolation/re-entrancy under every interleaving; races inside ply not decided.',
               'who-may-call / ownership rules over ast + call graph',
               'DESIGN.md 5 C03'),
     'C04': _c('The grammar as data: precedence table vs the stated order, the LALR automaton rebuilt from ast-extracted grammar '
@@ -41,11 +41,11 @@ CLAIMS = {
               'regex-AST queries + list-shape abstract interpretation of reduce actions + grammar family isomorphism',
               'DESIGN.md 5 C05'),
     'C06': _c('Conversion table exhaustive and consistent (36 cells: converter matches operand type, + and * symmetric), text/zero-divisor '
-              'exits, array dunder table (text scalars broadcast like any scalar), & by type tag, pre-1900 guard, the table\'s date converters as exact piecewise-affine serial maps. Decides table structure, not float arithmetic.',
+              'exits, array dunder table (text scalars broadcast like any scalar), & by type tag, pre-1900 guard, the table\'s date converters as exact piecewise-affine serial maps, a text literal is the text written (no whole-text transformation of the formula before the lexer), the arithmetic path consults no state the library itself writes between calls (ambient-state rule). Decides table structure, not float arithmetic.',
               'evaluated-table agreement + type-tag abstract interpretation + piecewise-affine converters',
               'DESIGN.md 5 C06'),
     'C07': _c('Comparator kernel computed for all ordered type-tag pairs (int,float,bool,str,none,datetime)^2 x (lt,gt,eq) by abstract '
-              'interpretation and compared with the rank oracle; trichotomy, antisymmetry, derived operators. Transitivity follows '
+              'interpretation and compared with the rank oracle; trichotomy, antisymmetry, derived operators; a text literal is the text written (no whole-text transformation of the formula before the lexer). Transitivity follows '
               'from rank + native order. NaN and list operands excluded.',
               'type-tag abstract interpretation (complete finite quotient of operand types)',
               'DESIGN.md 5 C07'),
@@ -54,15 +54,15 @@ CLAIMS = {
               'type-tag + origin abstract interpretation, path rules on the call boundary',
               'DESIGN.md 5 C08'),
     'C09': _c('No SyntaxError can leave a reduce action (swallowed by ply), lookup order instance>registry>#NAME?, variable sentinel, '
-              'documented names subset of registry, predefined names, registered names lexable as FUNCTION tokens, name tokens handed on verbatim, the registry getter answers only the exact spelling (near-miss names interpreted), no state on the resolution path (actions, callbacks, parse driver).',
+              'documented names subset of registry, predefined names, registered names lexable as FUNCTION tokens, name tokens handed on verbatim, the registry getter answers only the exact spelling (near-miss names interpreted), no state on the resolution path (actions, callbacks, parse driver), the value a variable callback answers reaches the expression unchanged for every kind of value (date-times, 0, FALSE, empty text, arrays, errors).',
               'exception-class propagation over the call graph + path dominance + table/doc agreement + regex AST',
               'DESIGN.md 5 C09'),
     'C10': _c('Exactly one emit per reference callback on every normal path, one callback per reduction, every pair of label kinds forms a range production, cell/range payload origin, '
-              'setter keeps falsy values (the return value of a listener is not an answer), default blank, private token stream per parse, exact label/index converters.',
+              'setter keeps falsy values (the return value of a listener is not an answer), default blank, private token stream per parse, exact label/index converters, the value a cell or range callback answers reaches the expression unchanged for every kind of value (a marker object compared with == is followed into its __eq__).',
               'path enumeration (exactly-once) + origin tracking + type-tag evaluation of setter closures',
               'DESIGN.md 5 C10'),
     'C11': _c('Structural clauses only: error item becomes the result (full drain), whole *args through the flattener, delegation table '
-              'name->statistics function, fnmatch roles and a constant table of wildcard criteria (whole cell, ? and *, line breaks), extremum seed, index alignment, items are the values the references were given (C10.R5), the catch-all of parse() covers every exception (C01.R1), empty selection exits. The numeric headline '
+              'name->statistics function, fnmatch roles and a constant table of wildcard criteria (whole cell, ? and *, line breaks), extremum seed, index alignment, items are the values the references were given (C10.R5), the catch-all of parse() covers every exception (C01.R1), empty selection exits, a criterion literal is the text written (C05.R9 restricted to whole-text transformations), the aggregates are registered when the package is imported, no aggregate consults state the library writes between calls. The numeric headline '
               '(aggregate = textbook statistic on all lists) is NOT decided.',
               'delegation-table agreement + role/dataflow rules + summary-list abstract interpretation',
               'DESIGN.md 5 C11'),
@@ -79,7 +79,7 @@ CLAIMS = {
               'finite-quotient evaluation + table agreement + guard dominance',
               'DESIGN.md 5 C14'),
     'C15': _c('Structural clauses only: no negative-zero slice, negative counts rejected, SUBSTITUTE unchanged-exit independent of the '
-              'replacement, a find() position is tested for not-found before it bounds a slice, the k-th occurrence through find()/split() on instance numbers 1..3 and on a constant table (whole-valued float instance numbers included), no identity comparison of computed numbers or texts, tuple rows flattened like lists, TRIM removes spaces only (constant table), joins over all flattened items in order. String-value algebra (idempotence etc.) NOT decided.',
+              'replacement, a find() position is tested for not-found before it bounds a slice, the k-th occurrence through find()/split() on instance numbers 1..3 and on a constant table (whole-valued float instance numbers included), no identity comparison of computed numbers or texts, tuple rows flattened like lists, TRIM removes spaces only (constant table), joins over all flattened items in order, a text literal is the text written (no whole-text transformation of the formula before the lexer). String-value algebra (idempotence etc.) NOT decided.',
               'guard dominance with interval facts + path-condition dependence + dataflow roles',
               'DESIGN.md 5 C15'),
     'C16': _c('Structural clauses only: delegation table name->math function, coercion+error guard dominates every use (sibling rule), '
@@ -97,7 +97,7 @@ CLAIMS = {
               'guard dominance with integer interval facts + path rules',
               'DESIGN.md 5 C18'),
     'C19': _c('Label regex language equals the label language (DFA over a 6-class alphabet with Python $ semantics), capture-group roles, '
-              'alphabet constant, exact integer arithmetic in the column and row converters, digit and carry of one step from the same dividend, row converters affine inverses, recomposition order, loop termination, no shared mutable result (mutable default / empty module-level container handed out). Column converters mutually '
+              'alphabet constant, exact integer arithmetic in the column and row converters, digit and carry of one step from the same dividend, row converters affine inverses, recomposition order, loop termination, no shared mutable result (mutable default / empty module-level container handed out), the cell and range callbacks build each Cell from the label of the reference at hand (no recalled object, no consulted limit that a constructor writes). Column converters mutually '
               'inverse (bijective base 26) NOT decided.',
               'regex-AST to DFA language equality + affine forms + dataflow roles',
               'DESIGN.md 5 C19'),
